@@ -162,28 +162,38 @@ def restoreLineBuffer (s : St) : St :=
   | none => s
   | some u => { s with line := u.line, cur := curSet u.line s.cur u.pos }
 
-/-- Sources.Walk -/
-def walk (s : St) (pos : Int) : G St := do
+/-- `Walk`, once the position has moved (`s.hpos` is the new one) -/
+def walkTo (s : St) : St :=
   let n : Int := s.src.length
-  if n = 0 then return s
-  if pos = 0 then return s
-  if s.hpos = n ∧ pos = 1 then return s
-  let mut s := s
+  if s.hpos < -1 then { s with hpos := -1 }
+  else if s.hpos = 0 then restoreLineBuffer s
+  else
+    let s := if s.hpos > n then { s with hpos := n } else s
+    match (getLH s (lineKey s)).items.getLast? with
+    | some it => setLineCursorMatch s it.line            -- the line as it was left (edited overlay)
+    | none =>
+      match getLine s.src (n - s.hpos) with
+      | some l => setLineCursorMatch s l
+      | none => s                                         -- error hint, buffer untouched
+
+/-- leaving the line being typed: its state is saved first -/
+def leaveMain (s : St) (pos : Int) : G St :=
   if s.hpos = -1 ∧ pos > 0 then
-    s := { s with skip := false }
-    s ← save s
-    s := { s with cpos := -1, hpos := 0 }
-  s := { s with hpos := s.hpos + pos }
-  if s.hpos < -1 then return { s with hpos := -1 }
-  if s.hpos = 0 then return restoreLineBuffer s
-  if s.hpos > n then s := { s with hpos := n }
-  let h := getLH s (lineKey s)
-  match h.items.getLast? with
-  | some it => return setLineCursorMatch s it.line
-  | none =>
-    match getLine s.src (n - s.hpos) with
-    | some l => return setLineCursorMatch s l
-    | none => return s                         -- error hint, buffer untouched
+    match save { s with skip := false } with
+    | .error e => .error e
+    | .ok t => .ok { t with cpos := -1, hpos := 0 }
+  else .ok s
+
+/-- Sources.Walk -/
+def walk (s : St) (pos : Int) : G St :=
+  let n : Int := s.src.length
+  if n = 0 then .ok s
+  else if pos = 0 then .ok s
+  else if s.hpos = n ∧ pos = 1 then .ok s
+  else
+    match leaveMain s pos with
+    | .error e => .error e
+    | .ok s1 => .ok (walkTo { s1 with hpos := s1.hpos + pos })
 
 end RLV.Hist
 
@@ -203,16 +213,20 @@ def lineMatches (regex : Bool) (hist cline : List Nat) : Bool :=
   if regex then isInfix cline hist
   else !(decide (hist.length < cline.length) || (!cline.isEmpty && !cline.isPrefixOf hist))
 
+/-- the iteration clauses of `Sources.match`: `done(i)` and `move(i)` -/
+def moreToSee (fwd : Bool) (p n : Int) : Bool := if fwd then decide (p < n) else decide (p > 0)
+def nextPos (fwd : Bool) (p : Int) : Int := if fwd then p + 1 else p - 1
+
 /-- the loop of `Sources.match` from position `histPos`: the index of the first matching entry -/
 def matchLoop (src : List (List Nat)) (cline : List Nat) (fwd regex : Bool) : Nat → Int → Option Int
   | 0, _ => none
   | f+1, p =>
-    let n : Int := src.length
-    if (if fwd then p < n else p > 0) then
-      let p' := if fwd then p + 1 else p - 1
-      match getLine src p' with
+    if moreToSee fwd p src.length then
+      match getLine src (nextPos fwd p) with
       | none => none                 -- `GetLine` error: give up
-      | some h => if lineMatches regex (utf8 h) cline then some p' else matchLoop src cline fwd regex f p'
+      | some h =>
+        if lineMatches regex (utf8 h) cline then some (nextPos fwd p)
+        else matchLoop src cline fwd regex f (nextPos fwd p)
     else none
 
 /-- `Sources.InsertMatch(line, cur, usePos, fwd, regexp)` with an explicit line and cursor to match
